@@ -56,6 +56,8 @@ def run(ctx):
   other_layouts(ctx)
   sharded_triple(ctx)
   sharded_update_layout(ctx)
+  from . import C13
+  C13.slice_back(ctx)                # stored preconditioners keep their announced shapes
   squeeze_lint(ctx)
   validation(ctx)
   dead_stores(ctx)
